@@ -1,0 +1,31 @@
+//go:build verif
+
+package parse
+
+import (
+	"fmt"
+	"os"
+
+	"github.com/TarsCloud/TarsGo/tars/tools/tars2go/ast"
+	"github.com/TarsCloud/TarsGo/tars/tools/tars2go/options"
+)
+
+// VerifParse is NewParse for the verification harness (property C16): it also hands back the file node when the
+// parser stops with a diagnostic, so that the graph of included files built up to that point can be inspected.
+func VerifParse(opt *options.Options, filePath string) (tf *ast.TarsFile, diag string) {
+	b, err := os.ReadFile(filePath)
+	if err != nil {
+		return nil, "file read error: " + filePath + ". " + err.Error()
+	}
+	p := newParse(opt, filePath, b, make([]string, 0))
+	defer func() {
+		if r := recover(); r != nil {
+			if _, isRuntime := r.(interface{ RuntimeError() }); isRuntime {
+				panic(r)
+			}
+			tf, diag = p.tarsFile, fmt.Sprint(r)
+		}
+	}()
+	p.parse()
+	return p.tarsFile, ""
+}
